@@ -182,6 +182,36 @@ def v(sig, c, what):
     return {'signature': sig, 'case': {k: c[k] for k in c if k not in ('rows', 'checkids')}, 'what': what}
 
 
+def memo_violations(cases, viol, tag):
+    """the id mapping of Join / GroupBy / Split is computed once per pipeline object (C03, C08, C16, C17)"""
+    for i, c in enumerate(cases):
+        if c.get('mapping_recomputed'):
+            viol.append({'signature': 'oracle:mapping-recomputed', 'case': {k: c[k] for k in c if k not in ('rows', 'checkids')},
+                         'observed': c['mapping_recomputed'],
+                         'what': f'{tag}: {c["kind"]} case {i}: after ids and every field had been evaluated once on this pipeline object, evaluating ids and '
+                                 f'fields again ran the key / split functions again: {c["mapping_recomputed"]}'})
+
+
+def memo_oracle(ctx, res, tag):
+    """only the memoisation oracle, for the checks of C03 and C08"""
+    n = 90 if ctx['tier'] == 'quick' else 900
+    out = os.path.join(ctx['work'], 'relmemo.json')
+    rc, log = lib.run_impl('relational.py', ['--seed', str(ctx['seed']), '--n', str(n), '--kinds', 'join,group,split', '--out', out], 2400)
+    extra = []
+    if rc != 0:
+        extra.append({'signature': 'harness-error', 'what': log[-800:], 'case': None})
+        k = 0
+    else:
+        cases = json.load(open(out))['cases']
+        memo_violations(cases, extra, tag)
+        k = sum(1 for c in cases if 'mapping_recomputed' in c)
+    res['violations'] = list(res.get('violations', [])) + extra[:2]
+    res['oracle_checks'] = res.get('oracle_checks', 0) + k
+    res['evaluations'] = res.get('evaluations', 0) + k
+    res['rule'] = res.get('rule', '') + '; plus Join / GroupBy / Split pipelines whose ids and fields are evaluated twice: the key and split functions run once per id'
+    return res
+
+
 def run(ctx, kinds, n_quick=300, n_thorough=3000):
     n = n_quick if ctx['tier'] == 'quick' else n_thorough
     out = os.path.join(ctx['work'], 'rel.json')
@@ -191,6 +221,7 @@ def run(ctx, kinds, n_quick=300, n_thorough=3000):
                 'violations': [{'signature': 'harness-error', 'what': log[-800:], 'case': None}]}
     cases = json.load(open(out))['cases']
     viol, mism = [], 0
+    memo_violations(cases, viol, ctx['pid'])
     for kind in kinds:
         fn, ctype, check = KIND[kind]
         lits, idx = [], []
